@@ -62,7 +62,7 @@ import (
 // Unmarshal a CE document (CBE or CTE) from a reader, creating an object of the same type as the template.
 // If template is nil, a best-guess type will be returned (likely a slice or map).
 func UnmarshalCE(reader io.Reader, template interface{}, config *configuration.Configuration) (decoded interface{}, err error) {
-	bufReader := bufio.NewReader(reader)
+	bufReader := bufio.NewReader(&stickyErrorReader{reader: reader})
 	firstByte, err := bufReader.Peek(1)
 	if err != nil {
 		return
